@@ -53,7 +53,7 @@ SPEC = {
     ("C03", "C03_unsupported_transport_event"), ("C03", "C03_b1_legacy_refuted")]),
 }
 SPEC.update({k: v for k, v in [
- ("C04", (["C04"], "ALL:C04_")), ("C12", (["C04", "C12"], "ALL:C12_")), ("C08", (["C08"], "ALL:C08_")), ("C17", (["C17"], "ALL:C17_")),
+ ("TB", (["C04", "C06", "TB"], "ALL:TB_")), ("C04", (["C04"], "ALL:C04_")), ("C12", (["C04", "C12"], "ALL:C12_")), ("C08", (["C08"], "ALL:C08_")), ("C17", (["C17"], "ALL:C17_")),
 ]})
 
 
@@ -101,7 +101,7 @@ def block(pid):
     if isinstance(items, str):
         items = names_with_prefix(mods[-1], items.split(":")[1]) + EXTRA.get(pid, [])
     out = ["", "(* ------------------------------------------------------------------ %s *)" % pid,
-           "From Model Require Import Bytes Wire Uri Hdr Message Msg StaticRoute RoundRobin Pins Proxy RunProxy SpecC14 SpecProxy SpecProxy2.",
+           "From Model Require Import Bytes Wire Uri Hdr Message Msg StaticRoute RoundRobin Pins Proxy RunProxy SpecC14 SpecProxy SpecProxy2%s." % (" ProxyTB" if pid == "TB" else ""),
            "From Model.proofs Require %s." % " ".join(mods), "Section P_%s." % pid, "Import %s." % " ".join(mods)] + SCOPE.get(pid, [])
     for it in items:
         mod, name = it[0], it[1]
